@@ -267,6 +267,45 @@ func cmdCheck(args []string) int {
 			}
 		}
 	}
+	// vacuity guard at clause level: every clause of the baseline must still produce at least one obligation; one
+	// that produces none is anchored at code that is gone (or the contract is out of date) and decides nothing
+	if !*writeBaseline {
+		seenKey := map[string]bool{}
+		for _, r := range out.runs {
+			for _, o := range r.obls {
+				seenKey[o.ClauseKey] = true
+			}
+		}
+		for _, k := range base.Props[prop] {
+			if !seenKey[k] {
+				out.engineErrs = append(out.engineErrs, "clause "+k+" of the baseline produced no obligation on this tree (its anchor is gone or the contract is out of date)")
+			}
+		}
+	}
+	// a function whose contract no longer fits its code (a clause failed to evaluate: renamed local, loop moved into
+	// a helper, anchor gone) is not judged at all: what its obligations say is about the stale contract, not about
+	// the property. The mismatch is an engine error (exit 2), never a VIOLATION.
+	stale := map[string]bool{}
+	for _, r := range out.runs {
+		if len(r.errs) > 0 {
+			stale[r.relName] = true
+		}
+	}
+	if len(stale) > 0 {
+		var keepV []*Obligation
+		dropped := map[string]int{}
+		for _, o := range out.violations {
+			if stale[o.Func] {
+				dropped[o.Func]++
+				continue
+			}
+			keepV = append(keepV, o)
+		}
+		out.violations = keepV
+		for f, n := range dropped {
+			out.engineErrs = append(out.engineErrs, fmt.Sprintf("the contract of %s no longer matches its code; %d of its obligations were not judged", f, n))
+		}
+	}
 	for f, n := range retCanaries {
 		if n > 0 && retFeasible[f] == 0 {
 			out.engineErrs = append(out.engineErrs, "no sampled return path of "+f+" is reachable under its assumptions (vacuity guard)")
